@@ -25,6 +25,9 @@ package llrp
 //        2 = default client, reader already at 1.1; 3 = default client, reader at 1.0.1 / max 1.1, SET_PROTOCOL_VERSION -> 1.1;
 //        4 = default client, reader answers the version query with ERROR_MESSAGE VersionUnsupported -> 1.0.1
 //   y <exp> <act> <hex|-> <mode>   the reply's payload is given verbatim (undecodable replies)
+//   limit                          answers MaxBufferedPayloadSz
+//   L <exp> <code> <desc> <fe> <pe> <mode> <total>   a reply of the expected type whose payload is exactly <total> bytes: the LLRPStatus
+//        followed by Custom parameters (1023) as padding (exp = a response type that ends in a list of Custom parameters)
 //   k <exp> <act> <code> <desc> <fe> <pe> <mode> <cut> <eof|reset|deadline>   the awaited reply does not arrive completely: the frame's
 //        header announces the whole payload, <cut> bytes of it are sent, then the connection ends (orderly close / TCP reset / the
 //        reader goes silent and the Client's read deadline passes). A fresh connection per request.
@@ -1361,6 +1364,49 @@ func TestVerifC12(t *testing.T) {
 				continue
 			}
 			fmt.Fprintln(w, c12Cut(MessageType(exp), MessageType(act), payload, tok[7], cut, tok[9])+" "+strconv.Itoa(len(payload)))
+		case len(tok) == 1 && tok[0] == "limit":
+			fmt.Fprintln(w, "limit "+strconv.FormatUint(uint64(MaxBufferedPayloadSz), 10))
+		case len(tok) == 8 && tok[0] == "L":
+			exp, e1 := c12ParseU16(tok[1])
+			code, e2 := c12ParseU16(tok[2])
+			d, f, p, e3 := c12ParseShape(tok[3], tok[4], tok[5])
+			total, e4 := strconv.Atoi(tok[7])
+			if e1 != nil || e2 != nil || e3 != nil || e4 != nil || tok[6] == "" || total > 1<<22 {
+				fmt.Fprintln(w, "error: bad request")
+				continue
+			}
+			payload := c12statusTLV(code, d, f, p, tok[6][1:])
+			// padding: Custom parameters (TLV 1023: vendor u32, subtype u32, data) of at most 65532 bytes each, at least 12
+			for rest := total - len(payload); rest > 0; {
+				n := rest
+				if n > 65532 {
+					n = 65532
+					if rest-n < 12 {
+						n = rest - 12
+					}
+				}
+				if n < 12 {
+					payload = nil
+					break
+				}
+				payload = append(payload, c12tlv(1023, make([]byte, n-4))...)
+				rest -= n
+			}
+			if len(payload) != total {
+				fmt.Fprintln(w, "error: cannot pad to that size")
+				continue
+			}
+			if nBroken >= c12BrokenBudget {
+				fmt.Fprintln(w, "skipped - - - - same - - - - ok - -")
+				continue
+			}
+			ans, broken := s.exchange(MessageType(exp), MessageType(exp), payload, tok[6], nil, c12RetryTimeout)
+			fmt.Fprintln(w, ans)
+			if broken {
+				nBroken++
+				s.close()
+				s = c12NewSession()
+			}
 		case len(tok) == 5 && tok[0] == "y":
 			exp, e1 := c12ParseU16(tok[1])
 			act, e2 := c12ParseU16(tok[2])
